@@ -79,6 +79,23 @@ def run_case(limit, period, arrivals, duration, hops=0):
             recent = [s for s, k in starts if k != i and arrived - per < s <= arrived]
             if len(recent) < limit and not earlier_waiting:
                 return f"call {i} arrived at {arrived} with {len(recent)} recent starts (< {limit}) but began at {t}"
+    # ... nor any longer than that: a waiting call begins at the first instant at which fewer than `limit` calls began in
+    # the preceding period and every call that arrived before it has begun.  The instants that matter are the arrival,
+    # the begins of other calls and the instants a begin leaves the window (begin + period).
+    eps = 1e-6
+    start_of = {k: s for s, k in starts}
+    arrival_pos = {k: n for n, k in enumerate(arrival_seq)}
+    for (t, i) in starts:
+        arrived = [r[1] for r in res if r[0] == i][0]
+        instants = sorted({arrived} | {s for s, k in starts if k != i} | {s + per for s, k in starts if k != i})
+        for u in instants:
+            if not (arrived <= u < t - eps):
+                continue
+            waiting = [k for k in start_of if k != i and arrival_pos[k] < arrival_pos[i] and start_of[k] > u]
+            recent = [s for s, k in starts if k != i and u - per + eps < s <= u]
+            if len(recent) < limit and not waiting:
+                return (f"call {i} (arrived at {arrived}) was still held back at {u}, when only {len(recent)} calls (< {limit}) "
+                        f"had begun in the preceding period and no earlier call was waiting; it began at {t}: starts={starts}")
     return None
 
 
